@@ -12,6 +12,7 @@ import math
 
 import numpy as np
 
+from vf import bigcases
 from vf import core
 from vf.oracles import geo
 
@@ -23,7 +24,7 @@ MANIFEST = {
     "note": "Tolerance 6 degrees (observed worst 3.3 degrees with the Gaussian-tapered disc window; a hard-edged disc gives up to 4.5). The tower is placed with the harness' own equirectangular formula; its returned local position is required to be within 1 m of the domain centre.",
 }
 
-GRIDS = {"small": (16, 16, 320.0, 320.0), "square": (32, 32, 400.0, 400.0), "oblong": (32, 48, 400.0, 600.0), "aniso": (48, 32, 300.0, 400.0),
+GRIDS = {"large": (352, 352, 1760.0, 1760.0), "small": (16, 16, 320.0, 320.0), "square": (32, 32, 400.0, 400.0), "oblong": (32, 48, 400.0, 600.0), "aniso": (48, 32, 300.0, 400.0),
          # a low mast (2 m) in a domain several hundred measurement heights long, as needed to hold a stable-night footprint
          "low-mast": (96, 64, 1200.0, 800.0)}
 LOW = {"zm": 2.0, "nz": 16, "ustar": 0.25}
@@ -36,9 +37,9 @@ TOL_DEG = 6.0
 def configs(tier):
     if tier == "quick":
         cyc = itertools.cycle([("MOST", -100.0, 4.0), ("MOSTM", 50.0, 2.0), ("CONSTANT", 1e9, 6.0), ("MOST", 1e9, 2.0), ("MOSTM", -100.0, 6.0)])
-        sel = [(g, o) + next(cyc) for g, o in itertools.product([g for g in GRIDS if g not in ("low-mast", "small")], [o for o in ORIGINS if o not in SPECIAL_ORIGINS])]
+        sel = [(g, o) + next(cyc) for g, o in itertools.product([g for g in GRIDS if g not in ("low-mast", "small", "large")], [o for o in ORIGINS if o not in SPECIAL_ORIGINS])]
     else:
-        sel = list(itertools.product([g for g in GRIDS if g not in ("low-mast", "small")], [o for o in ORIGINS if o not in SPECIAL_ORIGINS], ("MOST", "MOSTM", "CONSTANT"), (-100.0, 1e9, 50.0), (2.0, 6.0)))
+        sel = list(itertools.product([g for g in GRIDS if g not in ("low-mast", "small", "large")], [o for o in ORIGINS if o not in SPECIAL_ORIGINS], ("MOST", "MOSTM", "CONSTANT"), (-100.0, 1e9, 50.0), (2.0, 6.0)))
     for g, o, clo, L, ws in sel:
         yield {"grid": g, "origin": o, "closure": clo, "mol": L, "speed": ws}
     # reference origins just WEST of the Greenwich meridian / of the antimeridian with the tower just east of it (longitudes of
@@ -257,3 +258,4 @@ def run(ctx):
                          sub="configuration from dataclasses / after a rejected construction", chunksize=1)
     core.run_forked(ctx, case_cache_race, [{"dirs": [20, 200]}], sub="two sessions sharing the cache directory (all interleavings, <= 2 preemptions)", nproc=4, timeout=1800)
     ctx.cov["worst_bearing_error_deg"] = max([r.get("obs", {}).get("worst_bearing_error_deg", 0) for r in res] + [0])
+    bigcases.run(ctx, "C08")
